@@ -254,6 +254,7 @@ OPS = {
     "hazmat.add_intersection": lambda s, t, ints: _add_int(s, t, ints),
     "hazmat.self_intersections": lambda n: hz_geo.self_intersections(n),
     "hazmat.self_intersections_traced": lambda n: _self_traced(n),
+    "hazmat.round_trace": lambda n1, n2, rounds: _round_trace(n1, n2, int(rounds)),
     "Curve.self_intersections_limited": lambda n: _limited(lambda: curve(n).self_intersections()),
     "shim.newton_refine_intersect": lambda s, n1, t, n2: list(_intersection_helpers.newton_refine(s, n1, t, n2)),
     "hazmat.newton_refine_intersect": lambda s, n1, t, n2: list(hz_ih.newton_refine(s, n1, t, n2)),
@@ -324,6 +325,72 @@ def _limited(f):
         return f()
     finally:
         sys.setrecursionlimit(old)
+
+
+class _StopTrace(Exception):
+    pass
+
+
+def _round_trace(n1, n2, rounds):
+    """the candidate flow of the REAL all_intersections: its callees intersect_one_round / prune_candidates / coincident_parameters /
+    check_lines are wrapped by recorders, the two end-games (tangent_bbox_intersection, from_linearized) are replaced by recorders,
+    and the run is cut after `rounds` rounds.  Returns [handled by check_lines, rounds]; per round: candidate pairs
+    (start1, end1, linearized1, start2, end2, linearized2) after the 64-candidate rule, events, whether pruning ran, verdict
+    (0 continue, 1 finished with no candidates, 2 still too many after pruning)"""
+    lin_cls = hz_geo.Linearization
+
+    def desc(c):
+        is_lin = c.__class__ is lin_cls
+        sc = c.curve if is_lin else c
+        return [float(sc.start), float(sc.end), bool(is_lin)]
+    events = []
+    out = []
+    flag = [False]
+    names = ["tangent_bbox_intersection", "from_linearized", "intersect_one_round", "prune_candidates", "coincident_parameters", "check_lines"]
+    orig = {k: getattr(hz_geo, k) for k in names}
+
+    def one_round_w(cands, inter):
+        if len(out) >= rounds:
+            raise _StopTrace()
+        del events[:]
+        res = orig["intersect_one_round"](cands, inter)
+        out.append([[desc(f) + desc(s_) for f, s_ in res], [list(e) for e in events], False, 0])
+        return res
+
+    def prune_w(cands):
+        res = orig["prune_candidates"](cands)
+        out[-1][0] = [desc(f) + desc(s_) for f, s_ in res]
+        out[-1][2] = True
+        return res
+
+    def coincident_w(a, b):
+        out[-1][3] = 2
+        return None
+
+    def check_lines_w(f, s_):
+        r = orig["check_lines"](f, s_)
+        flag[0] = bool(r[0])
+        return r
+    hz_geo.tangent_bbox_intersection = lambda f, s_, i: events.append([0] + desc(f) + desc(s_))
+    hz_geo.from_linearized = lambda f, s_, i: events.append([1] + desc(f) + desc(s_))
+    hz_geo.intersect_one_round = one_round_w
+    hz_geo.prune_candidates = prune_w
+    hz_geo.coincident_parameters = coincident_w
+    hz_geo.check_lines = check_lines_w
+    try:
+        try:
+            hz_geo.all_intersections(n1, n2)
+            if out and out[-1][3] == 0:
+                out[-1][3] = 1
+        except _StopTrace:
+            pass
+        except NotImplementedError:
+            if not (out and out[-1][3] == 2):
+                raise
+    finally:
+        for k in names:
+            setattr(hz_geo, k, orig[k])
+    return [flag[0], out]
 
 
 def _self_traced(nodes):
